@@ -59,6 +59,7 @@ pub fn check_is_match(prop: &str, case: &AstCase, ctx: &mut Ctx) -> Verdict {
     };
     let nontrivial_shape = m.node.size() >= 3 && (m.node.has_rep() || m.node.has_anchor() || m.node.has_backref() || m.node.any(&|n| matches!(n, Node::Alt(_))));
     let fl = facts_labels(facts);
+    let mut known_hit: Option<String> = None;
     for (i, input) in m.inputs.iter().enumerate() {
         let io = &out.per_input[i];
         let engine = match io.is_match.as_ref().unwrap() {
@@ -100,7 +101,7 @@ pub fn check_is_match(prop: &str, case: &AstCase, ctx: &mut Ctx) -> Verdict {
                 regions.push("force_progress_cutoff");
             }
             if let Some(id) = ctx.known.attribute(prop, &regions, symptom) {
-                *ctx.obs.known_attributed.entry(id).or_insert(0) += 1;
+                known_hit = Some(id);
                 continue;
             }
             return Verdict::Fail(Failure {
@@ -112,6 +113,9 @@ pub fn check_is_match(prop: &str, case: &AstCase, ctx: &mut Ctx) -> Verdict {
         }
     }
     ctx.obs.sample(|| case.describe(Dialect::XPath, &[]));
+    if let Some(id) = known_hit {
+        return Verdict::Known(id);
+    }
     Verdict::Pass
 }
 
@@ -132,12 +136,12 @@ impl Prop for C01 {
             .prop_map(|(node, flags, inputs)| AstCase { node, flags, inputs: Inputs::Raw(inputs) })
             .boxed();
         vec![
-            Part { name: "random-abc".into(), strategy: s, cases: tier.pick(40_000, 1_500_000) },
-            Part { name: "random-anchors-backrefs".into(), strategy: s2, cases: tier.pick(30_000, 1_000_000) },
+            Part { name: "random-abc".into(), strategy: s, cases: tier.pick(300_000, 6_000_000) },
+            Part { name: "random-anchors-backrefs".into(), strategy: s2, cases: tier.pick(200_000, 4_000_000) },
         ]
     }
     fn enumerations(&self, tier: Tier) -> Vec<(String, String, Box<dyn Iterator<Item = AstCase> + Send>)> {
-        let size = tier.pick(3, 4);
+        let size = tier.pick(4, 5);
         let len = tier.pick(3, 4);
         let nodes = enumerate::up_to(&enum_cfg(), size);
         let inputs = enumerate::inputs(&['a', 'b', '\n'], len);
